@@ -493,3 +493,519 @@ def conversion_extra_probe(R):
     finally:
         pyrun.drop_module(mod)
         apischema.cache.reset()
+
+
+# ---------------------------------------------------------------- schemas of discriminated unions (C06 / C17)
+
+def _resolve(root, ref):
+    assert ref.startswith("#/"), ref
+    node = root
+    for part in ref[2:].split("/"):
+        node = node[part]
+    return node
+
+
+def _walk_schemas(node, path=()):
+    if isinstance(node, dict):
+        yield path, node
+        for k, v in node.items():
+            yield from _walk_schemas(v, path + (k,))
+    elif isinstance(node, list):
+        for i, v in enumerate(node):
+            yield from _walk_schemas(v, path + (i,))
+
+
+def same_instance_ref_cycle(root):
+    """a definition that references itself through applicators working on the same instance (allOf / anyOf / oneOf / $ref):
+    validating against it never terminates"""
+    defs = root.get("$defs", {})
+
+    def direct(node):
+        out = set()
+        if isinstance(node, dict):
+            if isinstance(node.get("$ref"), str) and node["$ref"].startswith("#/$defs/"):
+                out.add(node["$ref"][len("#/$defs/"):])
+            for k in ("allOf", "anyOf", "oneOf"):
+                for sub in node.get(k, []) if isinstance(node.get(k), list) else []:
+                    out |= direct(sub)
+        return out
+    edges = {name: direct(d) for name, d in defs.items()}
+    for start in edges:
+        seen, todo = set(), list(edges[start])
+        while todo:
+            n = todo.pop()
+            if n == start:
+                return start
+            if n not in seen and n in edges:
+                seen.add(n)
+                todo.extend(edges[n])
+    return None
+
+
+def discriminator_aware(root, closed=False):
+    """Rewrite a generated schema into a standard JSON Schema carrying the OpenAPI meaning of `discriminator`: the property is
+    required, its value selects the alternative (explicit mapping, else the definition name), and the selected alternative
+    tolerates the property even when it forbids additional ones.  With closed=True the children of a class-level discriminated
+    class (allOf[parent, own properties], which apischema always leaves open) forbid unevaluated properties.  Returns a new
+    document."""
+    root = copy.deepcopy(root)
+    defs = root.setdefault("$defs", {})
+    extra = {}
+
+    def tolerant(name, prop):
+        """copy of definition `name` accepting the discriminator property"""
+        new = f"{name}~with~{prop}"
+        if new not in extra:
+            d = copy.deepcopy(defs[name])
+            targets = [d] + [s for s in d.get("allOf", []) if isinstance(s, dict) and "$ref" not in s]
+            for tgt in targets:
+                if tgt.get("type") == "object" or "properties" in tgt:
+                    tgt.setdefault("properties", {}).setdefault(prop, {})
+            if closed and any(isinstance(x, dict) and "$ref" in x for x in d.get("allOf", [])):
+                d["unevaluatedProperties"] = False
+            extra[new] = d
+        return {"$ref": f"#/$defs/{new}"}
+
+    def inherited(alt_names):
+        """class-level discriminator: every alternative is allOf[{$ref parent}, ...] with the same parent holding the keyword"""
+        parents = set()
+        for n in alt_names:
+            all_of = defs.get(n, {}).get("allOf") or []
+            refs = [s["$ref"][len("#/$defs/"):] for s in all_of if isinstance(s, dict) and "$ref" in s]
+            parents |= {p for p in refs if "discriminator" in defs.get(p, {})}
+            if not refs:
+                return None
+        return defs[parents.pop()]["discriminator"] if len(parents) == 1 else None
+
+    for path, node in list(_walk_schemas(root)):
+        alts = node.get("oneOf")
+        if not isinstance(alts, list) or not all(isinstance(a, dict) and set(a) == {"$ref"} for a in alts):
+            continue
+        names = [a["$ref"][len("#/$defs/"):] for a in alts]
+        disc = node.get("discriminator") or inherited(names)
+        if not disc:
+            continue
+        prop = disc["propertyName"]
+        by_ref = {ref[len("#/$defs/"):]: key for key, ref in disc.get("mapping", {}).items()}
+        keys = {}
+        for n in names:
+            if n in by_ref:
+                for key, ref in disc["mapping"].items():
+                    if ref == f"#/$defs/{n}":
+                        keys[key] = n
+            else:
+                keys[n] = n
+        node.pop("oneOf")
+        node.pop("discriminator", None)
+        node["type"] = "object"
+        node["required"] = [prop]
+        node["properties"] = {prop: {"enum": sorted(keys)}}
+        node["allOf"] = [{"if": {"properties": {prop: {"const": key}}, "required": [prop]}, "then": tolerant(n, prop)}
+                         for key, n in keys.items()]
+    defs.update(extra)
+    return root
+
+
+def discriminator_schema_probe(R, aspects):
+    """aspects: subset of {'agree' (C06), 'refs' (C17)}.
+    agree: deserialize accepts d  <=>  d is valid against deserialization_schema, on discriminated unions (annotated and
+    class-level), under standard semantics; a disagreement that disappears once `discriminator` is given its OpenAPI meaning
+    is the known finding, any other is a violation.
+    refs: generation succeeds for unions, parents and children, the document is valid against its meta-schema, every $ref
+    resolves and no definition references itself on the same instance."""
+    pyrun.ensure_repo_on_path()
+    import apischema.cache
+    import jsonschema
+    from typing import List, Optional
+    from apischema import deserialize, ValidationError
+    from apischema.json_schema import deserialization_schema, serialization_schema
+    apischema.cache.reset()
+    mod = pyrun.exec_module(DISC_SRC)
+    try:
+        if "refs" in aspects:
+            roots = [mod.U, mod.U3, mod.Pet, mod.Base, mod.X, mod.Y, mod.Holder, Union[mod.X, mod.Y], List[mod.Base],
+                     Optional[mod.X], List[mod.U]]
+            for tp in roots:
+                for gen in (deserialization_schema, serialization_schema):
+                    for all_refs in (False, True):
+                        R.count("discriminator_schema_refs")
+                        info = dict(source=DISC_SRC, type=str(tp), function=gen.__name__, all_refs=all_refs)
+                        try:
+                            doc = gen(tp, all_refs=all_refs)
+                        except Exception as e:   # noqa
+                            R.violation(f"{gen.__name__}({tp}, all_refs={all_refs}) raised {type(e).__name__}: {e}", info)
+                            continue
+                        try:
+                            jsonschema.Draft202012Validator.check_schema(doc)
+                        except Exception as e:   # noqa
+                            R.violation(f"schema of {tp} is not valid against the 2020-12 meta-schema: {e}", dict(info, schema=doc))
+                        for _, node in _walk_schemas(doc):
+                            ref = node.get("$ref")
+                            if isinstance(ref, str):
+                                try:
+                                    _resolve(doc, ref)
+                                except Exception:   # noqa
+                                    R.violation(f"$ref {ref} of the schema of {tp} does not resolve", dict(info, schema=doc))
+                        cyc = same_instance_ref_cycle(doc)
+                        if cyc:
+                            R.violation(f"definition {cyc} of the schema of {tp} references itself on the same instance "
+                                        f"(validation does not terminate)", dict(info, schema=doc))
+        if "agree" in aspects:
+            cases = list(discriminator_cases(mod))
+            more = []
+            for tp, d in cases:
+                if isinstance(d, dict):
+                    for k in list(d):
+                        more.append((tp, {kk: v for kk, v in d.items() if kk != k}))
+                        more.append((tp, {**d, k: None}))
+                    more.append((tp, {**d, "extra": 1}))
+            for tp, d in cases + more:
+                for addp in (False, True):
+                    R.count("discriminator_schema_agree")
+                    info = dict(source=DISC_SRC, type=str(tp), data=d, additional_properties=addp)
+                    try:
+                        doc = deserialization_schema(tp, additional_properties=addp)
+                    except Exception as e:   # noqa
+                        R.violation(f"deserialization_schema({tp}) raised {type(e).__name__}: {e}", info)
+                        continue
+                    try:
+                        deserialize(tp, copy.deepcopy(d), additional_properties=addp)
+                        acc = True
+                    except ValidationError:
+                        acc = False
+                    try:
+                        std = jsonschema.Draft202012Validator(doc).is_valid(d)
+                    except RecursionError:
+                        std = "does not terminate"
+                    if std == acc:
+                        continue
+                    try:
+                        oas = jsonschema.Draft202012Validator(discriminator_aware(doc)).is_valid(d)
+                    except Exception as e:   # noqa
+                        oas = f"{type(e).__name__}: {e}"
+                    if oas == acc and R.known_match("discriminator-keyword-semantics"):
+                        continue
+                    if not addp and oas is True and acc is False:
+                        try:
+                            oas = jsonschema.Draft202012Validator(discriminator_aware(doc, closed=True)).is_valid(d)
+                        except Exception as e:   # noqa
+                            oas = f"{type(e).__name__}: {e}"
+                        if oas == acc and R.known_match("inherited-discriminator-open-children"):
+                            continue
+                    R.violation(f"deserialize {'accepts' if acc else 'rejects'} {d!r} for a discriminated union but its schema says "
+                                f"{std} (standard semantics) / {oas} (with the OpenAPI meaning of discriminator)", dict(info, schema=doc))
+                    if len(R.violations) > 5:
+                        return
+    finally:
+        pyrun.drop_module(mod)
+        apischema.cache.reset()
+
+
+# ---------------------------------------------------------------- dataclass constructors (C08)
+
+CTOR_SRC = '''
+from dataclasses import dataclass, field, fields, InitVar
+from typing import List, Optional, ClassVar
+
+@dataclass
+class Plain:
+    a: int
+    b: str = "b"
+    c: List[int] = field(default_factory=list)
+
+@dataclass(frozen=True)
+class Frozen:
+    a: int
+    b: Optional[str] = None
+
+@dataclass
+class OwnPost:
+    name: str
+    tags: List[str] = field(default_factory=list)
+    def __post_init__(self):
+        self.name = self.name.strip().lower()
+        self.tags = sorted(self.tags)
+
+@dataclass
+class PostBase:
+    name: str
+    def __post_init__(self):
+        self.name = self.name.strip().lower()
+        self.key = "<" + self.name + ">"      # not a field
+
+@dataclass
+class PostChild(PostBase):                  # __post_init__ inherited from a dataclass
+    size: int = 0
+
+@dataclass
+class PostGrandChild(PostChild):
+    extra: List[int] = field(default_factory=list)
+
+class UpperMixin:                           # __post_init__ inherited from a plain class
+    def __post_init__(self):
+        for f in fields(self):
+            v = getattr(self, f.name)
+            if isinstance(v, str):
+                setattr(self, f.name, v.upper())
+
+@dataclass
+class Mixed(UpperMixin):
+    code: str
+    n: int = 1
+
+@dataclass(init=False)
+class OwnInit:                              # hand-written __init__ with the signature of the generated one
+    a: int
+    b: str = "x"
+    def __init__(self, a: int, b: str = "x"):
+        self.a = a * 2
+        self.b = b + "!"
+
+@dataclass
+class InitBase:
+    a: int
+    b: str = "x"
+
+class SubInit(InitBase):                    # undecorated subclass overriding __init__ with the same signature
+    def __init__(self, a: int, b: str = "x"):
+        super().__init__(a + 1, b)
+        self.seen = True
+
+@dataclass
+class NoInitField:
+    a: int
+    total: int = field(default=7, init=False)
+
+@dataclass
+class WithInitVar:
+    a: int
+    scale: InitVar[int] = 1
+    def __post_init__(self, scale):
+        self.a = self.a * scale
+
+@dataclass
+class Slotted:
+    __slots__ = ("a", "b")
+    a: int
+    b: str
+
+@dataclass
+class Guarded:
+    a: int
+    b: str = ""
+    def __setattr__(self, k, v):
+        object.__setattr__(self, k, v.strip() if isinstance(v, str) else v)
+
+class Counting:
+    made: ClassVar[int] = 0
+
+@dataclass
+class WithNew:
+    a: int = 0
+    def __new__(cls, *args, **kwargs):
+        obj = super().__new__(cls)
+        obj.stamp = "new"
+        return obj
+
+class Meta(type):
+    def __call__(cls, *args, **kwargs):
+        obj = super().__call__(*args, **kwargs)
+        obj.via_meta = True
+        return obj
+
+@dataclass
+class WithMeta(metaclass=Meta):
+    a: int = 0
+
+@dataclass
+class Nested:
+    child: PostChild
+    items: List[Mixed] = field(default_factory=list)
+    own: Optional[OwnInit] = None
+    sub: Optional[SubInit] = None
+
+CASES = [
+    (Plain, {"a": 1}), (Plain, {"a": 1, "b": "z", "c": [1, 2]}), (Plain, {"a": "no"}), (Plain, {}),
+    (Frozen, {"a": 1, "b": "q"}), (Frozen, {"a": None}),
+    (OwnPost, {"name": " Bar ", "tags": ["b", "a"]}), (OwnPost, {"name": 1}),
+    (PostBase, {"name": " Q "}), (PostChild, {"name": " Bar ", "size": 3}), (PostChild, {"name": " Bar "}), (PostChild, {"size": "x"}),
+    (PostGrandChild, {"name": " G ", "extra": [3]}), (Mixed, {"code": "ab"}), (Mixed, {"code": "ab", "n": 2}), (Mixed, {"n": 2}),
+    (OwnInit, {"a": 2}), (OwnInit, {"a": 2, "b": "k"}), (OwnInit, {"b": 1}),
+    (SubInit, {"a": 2}), (SubInit, {"a": 2, "b": "k"}), (SubInit, {}),
+    (NoInitField, {"a": 1}), (NoInitField, {"a": 1, "total": 3}),
+    (WithInitVar, {"a": 2, "scale": 5}), (WithInitVar, {"a": 2}),
+    (Slotted, {"a": 1, "b": "s"}), (Slotted, {"a": 1}),
+    (Guarded, {"a": 1, "b": "  padded "}), (WithNew, {"a": 4}), (WithNew, {}), (WithMeta, {"a": 4}),
+    (Nested, {"child": {"name": " N ", "size": 1}, "items": [{"code": "x"}, {"code": "y", "n": 0}], "own": {"a": 1}, "sub": {"a": 1}}),
+    (Nested, {"child": {"name": 3}, "items": [{"n": "bad"}]}),
+    (List[PostChild], [{"name": " a "}, {"name": " B ", "size": 2}]), (Optional[OwnInit], {"a": 5}), (Optional[SubInit], None),
+]
+'''
+
+
+def snapshot(v, depth=0):
+    """structural image of a result: class names, declared fields and any other instance attribute"""
+    if depth > 8:
+        return "..."
+    if isinstance(v, (list, tuple)):
+        return [type(v).__name__] + [snapshot(x, depth + 1) for x in v]
+    if isinstance(v, dict):
+        return {k: snapshot(x, depth + 1) for k, x in v.items()}
+    if hasattr(v, "__dataclass_fields__"):
+        attrs = {}
+        for name in list(getattr(v, "__dict__", {})) + [s for s in getattr(type(v), "__slots__", ())]:
+            if name == "_fields_set":
+                continue
+            try:
+                attrs[name] = snapshot(getattr(v, name), depth + 1)
+            except AttributeError:
+                attrs[name] = "<unset>"
+        return (type(v).__name__, sorted(attrs.items(), key=lambda kv: kv[0]))
+    return (type(v).__name__, repr(v))
+
+
+def constructor_probe(R):
+    """C08: the result of deserialize / deserialization_method does not depend on
+    settings.deserialization.override_dataclass_constructors nor on no_copy, for dataclasses whose construction is observable:
+    own and inherited __post_init__, hand-written __init__, init=False fields, InitVar, __slots__, __setattr__, __new__,
+    metaclass __call__."""
+    pyrun.ensure_repo_on_path()
+    import apischema.cache
+    from apischema import deserialize, deserialization_method, settings
+    apischema.cache.reset()
+    mod = pyrun.exec_module(CTOR_SRC)
+    prev = settings.deserialization.override_dataclass_constructors
+    try:
+        for tp, d in mod.CASES:
+            obs = {}
+            for override in (False, True):
+                settings.deserialization.override_dataclass_constructors = override
+                for no_copy in (True, False):
+                    for via in ("function", "method"):
+                        R.count("constructor_probe")
+                        data = copy.deepcopy(d)
+                        if via == "function":
+                            out = outcome(lambda: deserialize(tp, data, no_copy=no_copy))
+                        else:
+                            out = outcome(lambda: deserialization_method(tp, no_copy=no_copy)(data))
+                        obs[(override, no_copy, via)] = (out[0], snapshot(out[1]) if out[0] == "ok" else out[1])
+                        if data != d:
+                            R.violation(f"deserialize modified its input {d!r} -> {data!r}", dict(source=CTOR_SRC, type=str(tp), data=d))
+            base = obs[(False, False, "function")]
+            for key, o in obs.items():
+                if o != base:
+                    R.violation(f"deserializing {d!r} as {getattr(tp, '__name__', tp)} depends on (override_dataclass_constructors, no_copy, "
+                                f"function/method) = {key}: {o!r} instead of {base!r}",
+                                dict(source=CTOR_SRC, type=str(tp), data=d, options=dict(override=key[0], no_copy=key[1], via=key[2]),
+                                     baseline=repr(base), got=repr(o)))
+                    break
+    finally:
+        settings.deserialization.override_dataclass_constructors = prev
+        pyrun.drop_module(mod)
+        apischema.cache.reset()
+
+
+# ---------------------------------------------------------------- constraints given at several levels (C01 / C06)
+
+def stacked_constraints_probe(R, aspects):
+    """aspects: subset of {'accept' (C01), 'schema' (C06)}.
+    The same constraint given at two or three levels (NewType schema, nested Annotated, field metadata, per-call schema=) means
+    their conjunction: deserialize accepts d under the stack iff it accepts d under every level alone; the generated schema
+    validates exactly the accepted data."""
+    pyrun.ensure_repo_on_path()
+    import apischema.cache
+    import itertools
+    from dataclasses import dataclass, field, make_dataclass
+    from typing import Annotated, Any, Dict, List, NewType
+    from apischema import deserialize, schema, ValidationError
+    from apischema.json_schema import deserialization_schema
+    import jsonschema
+    apischema.cache.reset()
+    NUM = [-1, 0, 1, 2, 3, 4, 5, 6, 7, 9, 10, 11, 12, 18, 24, 36]
+    FNUM = NUM + [0.5, 2.5, 4.5, 4.75, 9.99, 10.5]
+    STR = ["", "a", "ab", "abc", "abcd", "abcde", "abcdef"]
+    LST = [[], [1], [1, 1], [1, 2], [1, 2, 3], [1, 2, 2, 3], [1, 2, 3, 4], [1, 2, 3, 4, 5]]
+    DCT = [{}, {"a": 1}, {"a": 1, "b": 2}, {"a": 1, "b": 2, "c": 3}, {"a": 1, "b": 2, "c": 3, "d": 4}]
+    families = [
+        (int, NUM, [dict(min=2), dict(min=5), dict(max=4), dict(max=10), dict(exc_min=2), dict(exc_min=5), dict(exc_max=5),
+                    dict(exc_max=10), dict(mult_of=2), dict(mult_of=3), dict(mult_of=4), dict(min=1, max=9), dict(exc_min=0, mult_of=6)]),
+        (float, FNUM, [dict(min=2.5), dict(min=4.75), dict(max=4.5), dict(max=10), dict(exc_min=0.5), dict(exc_min=4.5),
+                       dict(exc_max=4.5), dict(exc_max=10), dict(min=0, exc_max=9.99)]),
+        (str, STR, [dict(min_len=1), dict(min_len=3), dict(max_len=2), dict(max_len=4), dict(min_len=2, max_len=5), dict(pattern="^a")]),
+        (List[int], LST, [dict(min_items=1), dict(min_items=3), dict(max_items=2), dict(max_items=4), dict(unique=True),
+                          dict(unique=False), dict(min_items=2, unique=True)]),
+        (Dict[str, int], DCT, [dict(min_props=1), dict(min_props=3), dict(max_props=1), dict(max_props=3), dict(min_props=2, max_props=3)]),
+    ]
+    counter = [0]
+
+    def accepts(tp, d, **kw):
+        try:
+            deserialize(tp, copy.deepcopy(d), **kw)
+            return True
+        except ValidationError:
+            return False
+
+    def stacks(base, levels):
+        """the ways of giving the levels (innermost first): (name, type, wrap datum, unwrap kwargs)"""
+        def annotated(ls):
+            t = base
+            for c in ls:
+                t = Annotated[t, schema(**c)]
+            return t
+        yield "nested Annotated", annotated(levels), (lambda d: d), {}
+        counter[0] += 1
+        nt = NewType(f"N{counter[0]}", base)
+        schema(**levels[0])(nt)
+        t = nt
+        for c in levels[1:]:
+            t = Annotated[t, schema(**c)]
+        yield "NewType schema + Annotated", t, (lambda d: d), {}
+        yield "per-call schema= over Annotated", annotated(levels[:-1]), (lambda d: d), dict(schema=schema(**levels[-1]))
+        counter[0] += 1
+        cls = make_dataclass(f"F{counter[0]}", [("x", annotated(levels[:-1]), field(metadata=schema(**levels[-1])))])
+        yield "field metadata over Annotated", cls, (lambda d: {"x": d}), {}
+
+    try:
+        for base, data, cons in families:
+            combos = [list(p) for p in itertools.permutations(cons, 2)]
+            combos += [list(p) for p in itertools.islice(itertools.permutations(cons, 3), 0, None, 7)]
+            for levels in combos:
+                merged_keys = [k for c in levels for k in c]
+                if merged_keys.count("pattern") > 1:
+                    continue        # patterns cannot be merged (documented TypeError)
+                alone = [[accepts(Annotated[base, schema(**c)], d) for d in data] for c in levels]
+                for name, tp, wrap, kw in stacks(base, levels):
+                    R.count("stacked_constraints")
+                    info = dict(levels=[repr(c) for c in levels], base=str(base), stacking=name)
+                    try:
+                        got = [accepts(tp, wrap(d), **kw) for d in data]
+                    except Exception as e:   # noqa
+                        if isinstance(e, TypeError) and "multipleOf" in str(e):
+                            continue
+                        R.violation(f"{type(e).__name__} with constraints {levels} given as {name}: {e}", info)
+                        continue
+                    for i, d in enumerate(data):
+                        want = all(a[i] for a in alone)
+                        if "accept" in aspects and got[i] != want:
+                            R.violation(f"constraints {levels} given as {name} on {base}: {d!r} is {'accepted' if got[i] else 'rejected'} "
+                                        f"but is {'accepted' if want else 'rejected'} by the conjunction of the levels taken alone",
+                                        dict(info, data=d))
+                            break
+                    if "schema" in aspects:
+                        try:
+                            doc = deserialization_schema(tp, **kw)
+                        except Exception as e:   # noqa
+                            R.violation(f"deserialization_schema raised {type(e).__name__} with constraints {levels} given as {name}: {e}", info)
+                            continue
+                        val = jsonschema.Draft202012Validator(doc)
+                        for i, d in enumerate(data):
+                            if isinstance(d, float) and d == int(d):
+                                continue
+                            if val.is_valid(wrap(d)) != got[i]:
+                                R.violation(f"constraints {levels} given as {name} on {base}: deserialize {'accepts' if got[i] else 'rejects'} "
+                                            f"{d!r} but the schema says {val.is_valid(wrap(d))}", dict(info, data=d, schema=doc))
+                                break
+                    if len(R.violations) > 5:
+                        return
+    finally:
+        apischema.cache.reset()
